@@ -93,6 +93,7 @@ type Interp struct {
 	blobList  []*jsonBlob
 	syncMaps  map[string]*MapV
 	hashRecs  []hashRec
+	onceDone  map[string]bool
 	panicVal  Value
 	recovered bool
 	panicking bool
